@@ -270,11 +270,11 @@ class Layout(ShapeCastable, metaclass=ABCMeta):
         for key, field in self:
             shape = Shape.cast(field.shape)
             field_value = value[field.offset:field.offset+shape.width]
+            if shape.signed:
+                field_value = field_value.as_signed()
             if isinstance(field.shape, ShapeCastable):
                 fields[str(key)] = field.shape.format(field.shape(field_value), "")
             else:
-                if shape.signed:
-                    field_value = field_value.as_signed()
                 fields[str(key)] = Format("{}", field_value)
         return Format.Struct(value, fields)
 
@@ -567,11 +567,11 @@ class ArrayLayout(Layout):
         shape = Shape.cast(self._elem_shape)
         for index in range(self._length):
             field_value = value[shape.width * index:shape.width * (index + 1)]
+            if shape.signed:
+                field_value = field_value.as_signed()
             if isinstance(self._elem_shape, ShapeCastable):
                 fields.append(self._elem_shape.format(self._elem_shape(field_value), ""))
             else:
-                if shape.signed:
-                    field_value = field_value.as_signed()
                 fields.append(Format("{}", field_value))
         return Format.Array(value, fields)
 
